@@ -21,7 +21,14 @@ EmptyAnn(seq) == [seq |-> seq, labile |-> <<>>, static |-> <<>>, isotope |-> <<>
 NRes(A) == Len(A.seq)
 
 SeqSet(s) == { s[i] : i \in 1..Len(s) }
-Bag(s)    == [ x \in SeqSet(s) |-> Cardinality({ i \in 1..Len(s) : s[i] = x }) ]
+RawBag(s) == [ x \in SeqSet(s) |-> Cardinality({ i \in 1..Len(s) : s[i] = x }) ]
+
+(* numerically equal shifts are the same modification: "f:1.0" and "i:1" denote the same value *)
+NormV(v) == IF SubSeq(v, 1, 2) = "f:" /\ Len(v) >= 5 /\ SubSeq(v, Len(v) - 1, Len(v)) = ".0"
+            THEN "i:" \o SubSeq(v, 3, Len(v) - 2) ELSE v
+Bag(s) == RawBag(s)
+(* bag of a sequence of modifications, values normalised *)
+MBag(mods) == RawBag([ k \in 1..Len(mods) |-> [ mods[k] EXCEPT !.v = NormV(@) ] ])
 
 ModsAt(A, i) == IF \E k \in 1..Len(A.internal) : A.internal[k].i = i
                 THEN (CHOOSE e \in SeqSet(A.internal) : e.i = i).mods ELSE <<>>
@@ -29,15 +36,15 @@ ModsAt(A, i) == IF \E k \in 1..Len(A.internal) : A.internal[k].i = i
 ModifiedIdx(A) == { A.internal[k].i : k \in 1..Len(A.internal) }
 
 (* internal mods as a function residue index -> bag of mods (only modified residues) *)
-InternalBags(A) == [ i \in ModifiedIdx(A) |-> Bag(ModsAt(A, i)) ]
+InternalBags(A) == [ i \in ModifiedIdx(A) |-> MBag(ModsAt(A, i)) ]
 
-IntervalKey(iv) == [s |-> iv.s, e |-> iv.e, amb |-> iv.amb, mods |-> Bag(iv.mods)]
+IntervalKey(iv) == [s |-> iv.s, e |-> iv.e, amb |-> iv.amb, mods |-> MBag(iv.mods)]
 
 (* equality of annotations: order-insensitive within one position, sensitive to everything else *)
 SlotNames == {"labile", "static", "isotope", "unknown", "nterm", "cterm", "adducts"}
 Equal(A, B) ==
     /\ A.seq = B.seq
-    /\ \A f \in SlotNames : Bag(A[f]) = Bag(B[f])
+    /\ \A f \in SlotNames : MBag(A[f]) = MBag(B[f])
     /\ InternalBags(A) = InternalBags(B)
     /\ Bag([ k \in 1..Len(A.intervals) |-> IntervalKey(A.intervals[k]) ])
          = Bag([ k \in 1..Len(B.intervals) |-> IntervalKey(B.intervals[k]) ])
@@ -46,7 +53,7 @@ Equal(A, B) ==
 (* names of the fields on which A and B differ (for diagnostics) *)
 Diff(A, B) ==
     (IF A.seq # B.seq THEN {"seq"} ELSE {})
-    \cup { f \in SlotNames : Bag(A[f]) # Bag(B[f]) }
+    \cup { f \in SlotNames : MBag(A[f]) # MBag(B[f]) }
     \cup (IF InternalBags(A) # InternalBags(B) THEN {"internal"} ELSE {})
     \cup (IF Bag([ k \in 1..Len(A.intervals) |-> IntervalKey(A.intervals[k]) ])
              # Bag([ k \in 1..Len(B.intervals) |-> IntervalKey(B.intervals[k]) ]) THEN {"intervals"} ELSE {})
@@ -101,12 +108,12 @@ ReverseAnn(A, swap) ==
 ShiftAnn(A, k) == IF NRes(A) = 0 THEN A ELSE PermuteResidues(A, ShiftPerm(NRes(A), k % NRes(A)))
 
 (* the bag of (residue, bag of its mods): what every reordering must preserve *)
-ResidueBag(A) == Bag([ p \in 1..NRes(A) |-> <<A.seq[p], Bag(ModsAt(A, p - 1))>> ])
+ResidueBag(A) == Bag([ p \in 1..NRes(A) |-> <<A.seq[p], MBag(ModsAt(A, p - 1))>> ])
 
 (* B is some permutation of A's residues with their mods, all non-residue slots untouched *)
 IsResiduePermutation(A, B) ==
     /\ ResidueBag(A) = ResidueBag(B)
-    /\ \A f \in SlotNames : Bag(A[f]) = Bag(B[f])
+    /\ \A f \in SlotNames : MBag(A[f]) = MBag(B[f])
     /\ A.charge = B.charge
 
 (* one-residue pieces; labile mods only on the first *)
